@@ -104,6 +104,7 @@ pub struct Pair {
     pub tamper: u64,      // per cent of genuine data frames followed by a disagreeing copy of one of their fragments
     pub tamper_rng: u64,
     pub tampered: u64,
+    pub tamper_pool: [Vec<uv::Datagram>; 2], // genuine datagrams already handed to endpoint e
 }
 
 fn snap_json(s: &uv::VerifSnapshot, cfg: &PairCfg, e: usize) -> Value {
@@ -172,6 +173,7 @@ impl Pair {
             tamper: 0,
             tamper_rng: 0x1234567,
             tampered: 0,
+            tamper_pool: [Vec::new(), Vec::new()],
         }
     }
 
@@ -575,14 +577,22 @@ impl Pair {
             let pre = self.ep[e].hc.as_ref().map(|h| h.verif_snapshot().rf_base);
             self.handle_bytes(tr, e, &f.bytes, json!({"idx": f.idx}));
             if self.tamper > 0 && !self.dead {
-                // only when the genuine frame itself was accepted by the frame window (it came first)
+                // remember the datagrams of genuine frames the frame window accepted (they came first)
                 let post = self.ep[e].hc.as_ref().map(|h| h.verif_snapshot().rf_base);
                 if let (Some(a), Some(b), Some(uv::Frame::DataFrame(df))) = (pre, post, uv::Frame::read(&f.bytes)) {
                     if a != b && b == df.sequence_id.wrapping_add(1) {
-                        self.tamper_after(tr, e, &f.bytes);
+                        for d in df.datagrams.into_iter() {
+                            if self.tamper_pool[e].len() >= 48 {
+                                self.tamper_pool[e].remove(0);
+                            }
+                            self.tamper_pool[e].push(d);
+                        }
                     }
                 }
             }
+        }
+        if self.tamper > 0 && !self.dead && !self.tamper_pool[e].is_empty() {
+            self.tamper_after(tr, e);
         }
         n
     }
@@ -590,19 +600,20 @@ impl Pair {
     /// C04: after a genuine data frame has been handed over, hand over a copy of one of its fragments that
     /// disagrees with it (different payload length or contents, or different header fields), carried by a
     /// frame id the receiver still accepts.  The genuine fragment came first, so nothing may change.
-    fn tamper_after(&mut self, tr: &mut Trace, e: usize, bytes: &[u8]) {
+    fn tamper_after(&mut self, tr: &mut Trace, e: usize) {
         let mut r = Rng::new(self.tamper_rng);
         self.tamper_rng = r.next();
         if !r.chance(self.tamper, 100) {
             return;
         }
-        if let Some(uv::Frame::DataFrame(f)) = uv::Frame::read(bytes) {
-            if f.datagrams.is_empty() {
-                return;
-            }
-            let mut d = r.pick(&f.datagrams).clone();
+        {
+            // prefer last fragments of multi-fragment packets: their length decides the packet's length
+            let lasts: Vec<usize> = self.tamper_pool[e].iter().enumerate().filter(|(_, d)| d.fragment_id_last > 0 && d.fragment_id == d.fragment_id_last).map(|(i, _)| i).collect();
+            let i = if !lasts.is_empty() && r.chance(9, 10) { *r.pick(&lasts) } else { r.below(self.tamper_pool[e].len() as u64) as usize };
+            let mut d = self.tamper_pool[e][i].clone();
             let is_last = d.fragment_id == d.fragment_id_last;
-            match r.below(5) {
+            let v = if is_last && d.fragment_id_last > 0 && r.chance(4, 5) { r.below(2) } else { r.below(5) };
+            match v {
                 0 if is_last => { let n = r.below(d.data.len() as u64 + 1) as usize; d.data = d.data[..n].to_vec().into_boxed_slice(); }            // shorter copy of the last fragment
                 1 if is_last && d.data.len() < MAX_FRAGMENT_SIZE => { let mut v = d.data.to_vec(); v.extend(std::iter::repeat(0x5A).take(r.range(1, (MAX_FRAGMENT_SIZE - v.len()) as u64) as usize)); d.data = v.into_boxed_slice(); } // longer copy
                 2 => { let mut v = d.data.to_vec(); for b in v.iter_mut() { *b ^= 0xFF; } d.data = v.into_boxed_slice(); }                              // same shape, other contents
